@@ -8,7 +8,8 @@ From Coq Require Import NArith List Bool.
 From Pq Require Import Format.Nested Impl.CAssemble Impl.CAssembleFixed Proofs.NestedProofs Proofs.CAssembleProofs
   Proofs.CAssemblePagesProofs Proofs.NestedMapProofs Proofs.NestedInvProofs
   Proofs.CAssembleTightProofs Proofs.CAssembleFixedProofs Proofs.CAssembleV2Proofs
-  Proofs.NestedStructProofs Proofs.CAssemblePyProofs.
+  Proofs.NestedStructProofs Proofs.CAssemblePyProofs
+  Proofs.PyDictProofs.
 Import ListNotations.
 Open Scope N_scope.
 
@@ -158,6 +159,22 @@ Theorem C15_map_pages_partial :
     end.
 Proof. exact map_pages_v1. Qed.
 Print Assumptions C15_map_pages_partial.
+
+(* MAP cells are built by dict(zip(keys, values)) from the assembled pairs: in the dict built from a
+   pair list with possibly repeated keys the LAST value of a key wins and the keys keep the order of
+   their first occurrence *)
+Theorem C15_dict_last_wins :
+  forall (K V : Type) (keqb : K -> K -> bool), (forall a b, reflect (a = b) (keqb a b)) ->
+  forall (pairs : list (K * V)) (k : K),
+    alookup K V keqb k (py_dict K V keqb pairs) = alookup K V keqb k (rev pairs).
+Proof. exact py_dict_last_wins. Qed.
+Print Assumptions C15_dict_last_wins.
+
+Theorem C15_dict_keys_first_occurrence :
+  forall (K V : Type) (keqb : K -> K -> bool) (pairs : list (K * V)),
+    map fst (py_dict K V keqb pairs) = first_occurrences K keqb (map fst pairs).
+Proof. exact py_dict_keys. Qed.
+Print Assumptions C15_dict_keys_first_occurrence.
 
 (* LIST / MAP groups below struct groups (flattened column "s1....sk.NAME"): every optional
    ancestor adds one definition level meaning "no collection in this row".  Spec side: folding
